@@ -109,3 +109,31 @@ Proof.
       destruct (QQ ii QA QB) as [H1 [H2 H3]]. split; [exact H1|]. split; [exact H2|]. split; [|exact H3].
       intros N1 _. rewrite N1 in TA. discriminate.
 Qed.
+
+(** the bridge to the engine: on a wire that every capture handle sees in full, a packet that is a genuine reply for run B
+    is NOT a hop for run A (it is "noise" for A's engine) unless the identifying fields collide *)
+Theorem foreign_icmp_reply_is_noise cA cB stA stB b v now tB :
+  cfg_ok cA -> c_variant cA = VIcmp -> c_variant cB = VIcmp -> c_echo_id cA <> c_echo_id cB ->
+  frame_parse b = PView v -> genuine cB stB v tB = true ->
+  forall t a r d, recv cA stA b now <> Hop t a r d.
+Proof.
+  intros Hc VA VB Hne P GB t a r d H.
+  destruct (recv_sound cA stA b now t a r d Hc H) as [v' [P' [GA _]]].
+  rewrite P in P'. injection P' as <-.
+  destruct (icmp_runs_share_only_on_same_echo_id cA cB stA stB v t tB VA VB GA GB) as [E _]. contradiction.
+Qed.
+
+Theorem foreign_port_reply_is_noise cA cB stA stB b v now tB :
+  cfg_ok cA -> c_variant cA = c_variant cB -> c_variant cA <> VIcmp ->
+  (c_target cA <> c_target cB \/ c_dport cA <> c_dport cB
+   \/ (c_loosen cA = false /\ c_loosen cB = false /\ (c_local cA <> c_local cB \/ c_sport cA <> c_sport cB))) ->
+  frame_parse b = PView v -> genuine cB stB v tB = true ->
+  forall t a r d, recv cA stA b now <> Hop t a r d.
+Proof.
+  intros Hc VE VN Hne P GB t a r d H.
+  destruct (recv_sound cA stA b now t a r d Hc H) as [v' [P' [GA _]]].
+  rewrite P in P'. injection P' as <-.
+  destruct (port_runs_share_only_on_same_flow cA cB stA stB v t tB VE VN GA GB) as [E1 [E2 [_ E4]]].
+  destruct Hne as [N|[N|[LA [LB N]]]]; [contradiction|contradiction|].
+  destruct (E4 LA LB) as [E5 E6]. destruct N; contradiction.
+Qed.
